@@ -74,6 +74,15 @@ func checkC13(c *km.Ctx) {
 		if km.CalleeFull(ci.Common()) == "net/url.Parse" && km.Unwrap(ci.Common().Args[0]) == ssa.Value(vf.Params[1]) {
 			parsedParam = true
 		}
+		if cl, isCall := ci.(*ssa.Call); isCall {
+			for _, ref := range *cl.Referrers() {
+				if ex, isEx := ref.(*ssa.Extract); isEx && ex.Index == 0 {
+					if arg, ok := parsedArg(ex); ok && arg == ssa.Value(vf.Params[1]) {
+						parsedParam = true
+					}
+				}
+			}
+		}
 	}
 	nRet := 0
 	for _, rc := range s.RetCases(vf) {
@@ -237,11 +246,12 @@ func checkC13(c *km.Ctx) {
 		fns := append([]*ssa.Function{fn}, fn.AnonFuncs...)
 		for _, f2 := range fns {
 			for _, ci := range km.CallsIn(f2) {
-				if km.StaticCallee(ci.Common()) != hp {
+				h0, d0, isHP := hpCall(s, hp, ci.Common())
+				if !isHP {
 					continue
 				}
 				n++
-				a := ci.Common().Args
+				a := []ssa.Value{h0, d0}
 				hostOK := hostOfParsedParam(a[0], 0)
 				domOK := isElemOfField(a[1], "AllowedRedirectDomains")
 				// facts are judged where the decision is taken: at the call, or - for a matcher closure - where the
@@ -279,11 +289,15 @@ func checkC13(c *km.Ctx) {
 			if g == nil || g == hp || g.Blocks == nil || !c.InModule(g) {
 				continue
 			}
+			if _, _, isW := hostPredWrapper(s, hp, g); isW {
+				continue // judged as a call of the predicate itself
+			}
 			for _, c2 := range km.CallsIn(g) {
-				if km.StaticCallee(c2.Common()) != hp {
+				h2, d2, isHP := hpCall(s, hp, c2.Common())
+				if !isHP {
 					continue
 				}
-				a2 := c2.Common().Args
+				a2 := []ssa.Value{h2, d2}
 				hostParam, isP := km.Unwrap(a2[0]).(*ssa.Parameter)
 				if !isP || !isElemOfField(a2[1], "AllowedRedirectDomains") {
 					continue
@@ -300,6 +314,24 @@ func checkC13(c *km.Ctx) {
 				schemeOK := st.All(func(k km.Conj) bool { return s.Holds(k, https) && s.Holds(k, parseOK) })
 				r.Add("R-C13-4", km.FuncName(fn), "host decided by the shared predicate", posOf(c, ci), "hostnameInDomain(parse(param).Hostname(), configured domain) after parse ok ∧ scheme == https", sprintf("host=%v domain=true https=%v (through %s)", hostOK, schemeOK, km.NameOf(g)), hostOK && schemeOK)
 			}
+		}
+		// ... or through a helper that runs the shared predicate over a list it is handed
+		for _, ci := range km.CallsIn(fn) {
+			g := km.StaticCallee(ci.Common())
+			hi, li, isAny := anyDomainPredicate(s, hp, g)
+			if !isAny {
+				continue
+			}
+			args := km.CallArgs(ci.Common())
+			if hi >= len(args) || li >= len(args) {
+				continue
+			}
+			n++
+			hostOK := hostOfParsedParam(args[hi], 0)
+			domOK := mentionsField(args[li], "AllowedRedirectDomains")
+			st := c.F.At(ci)
+			schemeOK := st.All(func(k km.Conj) bool { return s.Holds(k, https) && s.Holds(k, parseOK) })
+			r.Add("R-C13-4", km.FuncName(fn), "host decided by the shared predicate", posOf(c, ci), "hostnameInDomain(parse(param).Hostname(), configured domain) after parse ok ∧ scheme == https", sprintf("host=%v domain=%v https=%v (through %s)", hostOK, domOK, schemeOK, km.NameOf(g)), hostOK && domOK && schemeOK)
 		}
 		if n == 0 {
 			r.Add("R-C13-4", km.FuncName(fn), "host decided by the shared predicate", c.P.Pos(fn.Pos()), "the sibling uses hostnameInDomain", "no call found", false)
@@ -445,6 +477,58 @@ func startsAtDot(suf ssa.Value, dom ssa.Value, k km.Conj, depth int) bool {
 	return false
 }
 
+// parsedArg: v is the URL result of net/url.Parse(x), directly or through a module helper that parses one of its
+// parameters and hands the parsed URL back (nil on its refusals); returns x in the frame of v.
+func parsedArg(v ssa.Value) (ssa.Value, bool) {
+	pc, idx := callRes(km.Unwrap(v))
+	if pc == nil || idx != 0 {
+		return nil, false
+	}
+	if km.CalleeFull(pc.Common()) == "net/url.Parse" {
+		return km.Unwrap(pc.Common().Args[0]), true
+	}
+	g := km.StaticCallee(pc.Common())
+	if g == nil || g.Blocks == nil || g.Pkg == nil || !strings.HasPrefix(g.Pkg.Pkg.Path(), km.ModPath) {
+		return nil, false
+	}
+	pi := -1
+	for _, b := range g.Blocks {
+		ret, ok := b.Instrs[len(b.Instrs)-1].(*ssa.Return)
+		if !ok {
+			continue
+		}
+		rv := km.ReturnValues(ret)
+		if len(rv) == 0 {
+			return nil, false
+		}
+		r0 := km.Unwrap(rv[0])
+		if km.IsNilConst(r0) {
+			continue
+		}
+		in, isIn := callRes(r0)
+		if in == nil || isIn != 0 || km.CalleeFull(in.Common()) != "net/url.Parse" {
+			return nil, false
+		}
+		q, isP := km.Unwrap(in.Common().Args[0]).(*ssa.Parameter)
+		if !isP {
+			return nil, false
+		}
+		for i, pp := range g.Params {
+			if pp == q {
+				if pi >= 0 && pi != i {
+					return nil, false
+				}
+				pi = i
+			}
+		}
+	}
+	args := km.CallArgs(pc.Common())
+	if pi < 0 || pi >= len(args) {
+		return nil, false
+	}
+	return km.Unwrap(args[pi]), true
+}
+
 // hostOfParsedParam: v is parse(<param>).Hostname(), directly or through a local / captured variable
 func hostOfParsedParam(v ssa.Value, depth int) bool {
 	v = km.Unwrap(v)
@@ -452,8 +536,8 @@ func hostOfParsedParam(v ssa.Value, depth int) bool {
 		return false
 	}
 	if hc, ok := v.(*ssa.Call); ok && km.CalleeFull(hc.Common()) == "(*net/url.URL).Hostname" {
-		if pc, idx := callRes(km.Unwrap(hc.Common().Args[0])); pc != nil && idx == 0 && km.CalleeFull(pc.Common()) == "net/url.Parse" {
-			_, isParam := km.Unwrap(pc.Common().Args[0]).(*ssa.Parameter)
+		if arg, ok := parsedArg(hc.Common().Args[0]); ok {
+			_, isParam := arg.(*ssa.Parameter)
 			return isParam
 		}
 		return false
@@ -523,11 +607,11 @@ func domainMatcherClosure(s *km.Sem, hp *ssa.Function, v ssa.Value) bool {
 	n := 0
 	for _, rc := range s.RetCases(fn) {
 		cl, idx := callRes(km.Unwrap(rc.Results[0]))
-		if cl == nil || idx != 0 || km.StaticCallee(cl.Common()) != hp {
+		if cl == nil || idx != 0 {
 			return false
 		}
-		a := cl.Common().Args
-		if !hostOfParsedParam(a[0], 0) || km.Unwrap(a[1]) != ssa.Value(fn.Params[0]) {
+		h, d, isHP := hpCall(s, hp, cl.Common())
+		if !isHP || !hostOfParsedParam(h, 0) || km.Unwrap(d) != ssa.Value(fn.Params[0]) {
 			return false
 		}
 		n++
@@ -550,8 +634,8 @@ func domainMatchFactR(s *km.Sem, hp *ssa.Function, f km.Fact, resolve func(ssa.V
 	if cl == nil || idx != 0 {
 		return false
 	}
-	if km.StaticCallee(cl.Common()) == hp {
-		return hostOfParsedParam(resolve(cl.Common().Args[0]), 0) && isElemOfField(cl.Common().Args[1], "AllowedRedirectDomains")
+	if h, d, isHP := hpCall(s, hp, cl.Common()); isHP {
+		return hostOfParsedParam(resolve(h), 0) && isElemOfField(d, "AllowedRedirectDomains")
 	}
 	name := km.CalleeFull(cl.Common())
 	if i := strings.Index(name, "["); i > 0 {
@@ -560,7 +644,139 @@ func domainMatchFactR(s *km.Sem, hp *ssa.Function, f km.Fact, resolve func(ssa.V
 	if name == "slices.ContainsFunc" && len(cl.Common().Args) == 2 {
 		return mentionsField(cl.Common().Args[0], "AllowedRedirectDomains") && domainMatcherClosure(s, hp, cl.Common().Args[1])
 	}
+	// a helper that runs the shared predicate over a list it is given
+	if hi, li, ok := anyDomainPredicate(s, hp, km.StaticCallee(cl.Common())); ok {
+		a := km.CallArgs(cl.Common())
+		if hi < len(a) && li < len(a) {
+			return hostOfParsedParam(resolve(a[hi]), 0) && mentionsField(resolve(a[li]), "AllowedRedirectDomains")
+		}
+	}
 	return false
+}
+
+// anyDomainPredicate recognises a module function g(..., host, ..., list, ...) bool (the list may be the receiver)
+// that can return true only when the shared host predicate hp accepted (host parameter, an element of the list
+// parameter): a loop over the list returning true under hp(host, element), or slices.ContainsFunc(list, closure)
+// with a closure that returns hp(host, its parameter). Returns the indices of the host and list parameters.
+func anyDomainPredicate(s *km.Sem, hp *ssa.Function, g *ssa.Function) (int, int, bool) {
+	if g == nil || g == hp || g.Blocks == nil {
+		return 0, 0, false
+	}
+	res := g.Signature.Results()
+	if res.Len() != 1 || res.At(0).Type().String() != "bool" {
+		return 0, 0, false
+	}
+	pidx := func(v ssa.Value) int {
+		v = km.CellOrigin(km.Unwrap(v))
+		for i, p := range g.Params {
+			if ssa.Value(p) == v {
+				return i
+			}
+		}
+		return -1
+	}
+	hi, li := -1, -1
+	set := func(h, l int) bool {
+		if h < 0 || l < 0 || (hi >= 0 && (hi != h || li != l)) {
+			return false
+		}
+		hi, li = h, l
+		return true
+	}
+	nTrue := 0
+	for _, rc := range s.RetCases(g) {
+		v := km.Unwrap(rc.Results[0])
+		if km.ValStr(v) == "false" {
+			continue
+		}
+		nTrue++
+		// library form: the result is ContainsFunc(list, closure{hp(host, p)})
+		if cl, ok := v.(*ssa.Call); ok {
+			name := km.CalleeFull(cl.Common())
+			if i := strings.Index(name, "["); i > 0 {
+				name = name[:i]
+			}
+			if name == "slices.ContainsFunc" && len(cl.Common().Args) == 2 {
+				mc, isMC := km.Unwrap(cl.Common().Args[1]).(*ssa.MakeClosure)
+				if !isMC {
+					return 0, 0, false
+				}
+				h := mc.Fn.(*ssa.Function)
+				if len(h.Params) != 1 {
+					return 0, 0, false
+				}
+				okAll := false
+				for _, hr := range s.RetCases(h) {
+					hc, idx := callRes(km.Unwrap(hr.Results[0]))
+					if hc == nil || idx != 0 {
+						return 0, 0, false
+					}
+					hArg, dArg, isHP := hpCall(s, hp, hc.Common())
+					if !isHP || km.Unwrap(dArg) != ssa.Value(h.Params[0]) {
+						return 0, 0, false
+					}
+					// the host: a captured variable bound to a parameter of g
+					hv := km.Unwrap(hArg)
+					if u, isU := hv.(*ssa.UnOp); isU {
+						hv = u.X
+					}
+					hostIdx := -1
+					for fi, fv := range h.FreeVars {
+						if ssa.Value(fv) == hv && fi < len(mc.Bindings) {
+							hostIdx = pidx(mc.Bindings[fi])
+						}
+					}
+					if !set(hostIdx, pidx(cl.Common().Args[0])) {
+						return 0, 0, false
+					}
+					okAll = true
+				}
+				if !okAll {
+					return 0, 0, false
+				}
+				continue
+			}
+		}
+		// loop form: every path on which the result can be true carries hp(host param, element of list param)
+		for _, k := range rc.State {
+			kk, may := s.TrueFacts(k, v)
+			if !may {
+				continue
+			}
+			found := false
+			for _, f := range kk.List() {
+				if f.Op != token.ILLEGAL || !f.Pol {
+					continue
+				}
+				hc, idx := callRes(f.X)
+				if hc == nil || idx != 0 {
+					continue
+				}
+				hArg, dArg, isHP := hpCall(s, hp, hc.Common())
+				if !isHP {
+					continue
+				}
+				u, isU := km.Unwrap(dArg).(*ssa.UnOp)
+				if !isU {
+					continue
+				}
+				ia, isIA := u.X.(*ssa.IndexAddr)
+				if !isIA {
+					continue
+				}
+				if set(pidx(hArg), pidx(ia.X)) {
+					found = true
+				}
+			}
+			if !found {
+				return 0, 0, false
+			}
+		}
+	}
+	if nTrue == 0 || hi < 0 {
+		return 0, 0, false
+	}
+	return hi, li, true
 }
 
 func lenZeroFact(f km.Fact, field string) bool {
@@ -572,4 +788,86 @@ func lenZeroFact(f km.Fact, field string) bool {
 		}
 	}
 	return false
+}
+
+// hostPredWrapper recognises a module function w(..., host, ..., domain, ...) bool that is at most as permissive as
+// the shared host predicate: every path on which it can return true carries hp(host parameter, domain parameter).
+var hostPredWrapperMemo = map[*ssa.Function][3]int{}
+
+func hostPredWrapper(s *km.Sem, hp, g *ssa.Function) (int, int, bool) {
+	if g == nil || g == hp || g.Blocks == nil {
+		return 0, 0, false
+	}
+	if m, ok := hostPredWrapperMemo[g]; ok {
+		return m[0], m[1], m[2] == 1
+	}
+	hostPredWrapperMemo[g] = [3]int{0, 0, 0}
+	res := g.Signature.Results()
+	if res.Len() != 1 || res.At(0).Type().String() != "bool" {
+		return 0, 0, false
+	}
+	pidx := func(v ssa.Value) int {
+		v = km.CellOrigin(km.Unwrap(v))
+		for i, p := range g.Params {
+			if ssa.Value(p) == v {
+				return i
+			}
+		}
+		return -1
+	}
+	hi, di, nTrue := -1, -1, 0
+	for _, rc := range s.RetCases(g) {
+		v := km.Unwrap(rc.Results[0])
+		if km.ValStr(v) == "false" {
+			continue
+		}
+		nTrue++
+		for _, k := range rc.State {
+			kk, may := s.TrueFacts(k, v)
+			if !may {
+				continue
+			}
+			found := false
+			for _, f := range kk.List() {
+				if f.Op != token.ILLEGAL || !f.Pol {
+					continue
+				}
+				hc, idx := callRes(f.X)
+				if hc == nil || idx != 0 || km.StaticCallee(hc.Common()) != hp {
+					continue
+				}
+				h, d := pidx(hc.Common().Args[0]), pidx(hc.Common().Args[1])
+				if h >= 0 && d >= 0 && (hi < 0 || (hi == h && di == d)) {
+					hi, di, found = h, d, true
+				}
+			}
+			if !found {
+				return 0, 0, false
+			}
+		}
+	}
+	if nTrue == 0 || hi < 0 {
+		return 0, 0, false
+	}
+	hostPredWrapperMemo[g] = [3]int{hi, di, 1}
+	return hi, di, true
+}
+
+// hpCall: cl calls the shared host predicate, or a wrapper that is at most as permissive; returns the host and the
+// domain operands.
+func hpCall(s *km.Sem, hp *ssa.Function, cc *ssa.CallCommon) (ssa.Value, ssa.Value, bool) {
+	g := km.StaticCallee(cc)
+	if g == nil {
+		return nil, nil, false
+	}
+	if g == hp {
+		return cc.Args[0], cc.Args[1], true
+	}
+	if hi, di, ok := hostPredWrapper(s, hp, g); ok {
+		a := km.CallArgs(cc)
+		if hi < len(a) && di < len(a) {
+			return a[hi], a[di], true
+		}
+	}
+	return nil, nil, false
 }
